@@ -1,0 +1,74 @@
+package e2e
+
+import (
+	"sync"
+	"testing"
+	"time"
+
+	streamsql "github.com/rulego/streamsql"
+	"github.com/stretchr/testify/assert"
+	"github.com/stretchr/testify/require"
+)
+
+// runHavingNot emits three rows of one group into a counting window of three and
+// returns the rows delivered to the sink.
+func runHavingNot(t *testing.T, sql string) []map[string]any {
+	t.Helper()
+	ssql := streamsql.New()
+	require.NoError(t, ssql.Execute(sql), sql)
+	defer ssql.Stop()
+	var mu sync.Mutex
+	var out []map[string]any
+	ssql.AddSink(func(rows []map[string]any) {
+		mu.Lock()
+		defer mu.Unlock()
+		out = append(out, rows...)
+	})
+	for _, r := range []map[string]any{
+		{"k": "b", "v": 1},
+		{"k": "b", "v": 2},
+		{"k": "b", "v": 3},
+	} {
+		ssql.Emit(r)
+	}
+	deadline := time.Now().Add(time.Second)
+	for time.Now().Before(deadline) {
+		mu.Lock()
+		n := len(out)
+		mu.Unlock()
+		if n > 0 {
+			break
+		}
+		time.Sleep(10 * time.Millisecond)
+	}
+	time.Sleep(100 * time.Millisecond)
+	mu.Lock()
+	defer mu.Unlock()
+	return append([]map[string]any(nil), out...)
+}
+
+// The SQL NOT operator negates a HAVING predicate in any letter case, as in WHERE.
+func TestHaving_NotOperator(t *testing.T) {
+	const head = "SELECT k, count(*) AS c FROM stream GROUP BY k, CountingWindow(3) HAVING "
+	for _, h := range []string{
+		"NOT (count(*) < 2)",
+		"not (count(*) < 2)",
+		"Not (c < 2)",
+		"c = 3 AND NOT (c < 2 OR c > 5)",
+		"NOT (c IS NULL)",
+		"k NOT LIKE 'a%'",
+		"c IS NOT NULL",
+	} {
+		rows := runHavingNot(t, head+h)
+		if assert.Len(t, rows, 1, h) {
+			assert.EqualValues(t, 3, rows[0]["c"], h)
+		}
+	}
+	for _, h := range []string{
+		"NOT (count(*) > 2)",
+		"NOT (k LIKE 'b%')",
+		"c = 3 AND NOT (c > 2)",
+	} {
+		assert.Empty(t, runHavingNot(t, head+h), h)
+	}
+}
